@@ -78,7 +78,10 @@ def build_cases(repo: str | None = None, full_pairs: bool = False) -> dict:
                 applied.add(d["prop"])
                 ops = [op for op, role in OPS if role in d["methods"]]
                 r = D.reachability(d, names)
-                decls.append({"child": d["child"], "kind": d["kind"], "succ": d["successors"], "group": d["group_members"],
+                succ = d["successors"]
+                if succ is None:       # behavioural extraction: which members of this content model does _insert_x go before?
+                    succ = D.behavioural_successors(e["tag"], d["prop"], [t for s_ in cm["slots"] for t in s_["members"] if t != d["child"]])
+                decls.append({"child": d["child"], "kind": d["kind"], "succ": succ, "group": d["group_members"],
                               "ops": ops, "prop": d["prop"], "reachable": r["insert_reachable"],
                               "callers": r["callers"], "remove_callers": r["remove_callers"],
                               "custom": sorted(role for role, m in d["methods"].items() if not m["generated"] and role != "new")})
@@ -94,7 +97,7 @@ def build_cases(repo: str | None = None, full_pairs: bool = False) -> dict:
                 not_applicable.append("%s/%s" % (e["tag"], d["child"]))
     uri2pfx = dict(xm.uri2pfx)
     return {"cases": cases, "uri2pfx": uri2pfx, "not_applicable": not_applicable, "no_model": no_model, "unsupported": unsupported,
-            "n_tags": ex["n_tags"], "n_classes": ex["n_classes"], "n_decls": ex["n_decls"], "n_class_decls": ex["n_class_decls"],
+            "extraction": ex["extraction"], "n_tags": ex["n_tags"], "n_classes": ex["n_classes"], "n_decls": ex["n_decls"], "n_class_decls": ex["n_class_decls"],
             "xsd_files": xm.files, "handwritten_sites": D.handwritten_sites(os.path.join(repo, "src", "pptx"))}
 
 
